@@ -141,8 +141,10 @@ Touch(u, v, kind) ==
 
 \* C15: serialisation is two separate steps so that other operations may come in between.
 \* kind 0 = the unit itself; kind 1, 2, 3 = a quantity of that unit with an int, float, Decimal magnitude
+\* (in histories with a DefineDim only what was serialised BEFORE the definition is of interest - the rest are the
+\* ordinary round trips - so the abstract state, a set, determines the order of dumps and definition)
 Dump(u, codec, kind) ==
-  /\ "dump" \in Ops /\ <<u, codec, kind>> \notin pickled
+  /\ "dump" \in Ops /\ <<u, codec, kind>> \notin pickled /\ <<One, "defdim", 100>> \notin pickled
   /\ pickled' = pickled \cup {<<u, codec, kind>>}
   /\ ev' = Ev("dump", u, One, kind, codec, "ok", <<>>, <<>>, <<>>, {})
   /\ UNCHANGED tab
@@ -159,6 +161,17 @@ LoadForeign(u, codec, kind) ==
   \* sequences of loads are distinct behaviours even when the table does not change
   /\ <<u, codec, kind + 10>> \notin pickled
   /\ pickled' = pickled \cup {<<u, codec, kind + 10>>}
+
+\* Dimension.define(): a NEW fundamental dimension is defined in the middle of the process.  Nothing about the units
+\* that exist changes (their dimensions have exponent 0 in the new direction): the table, every stored dimension and
+\* every object identity stay as they are - and what was serialised before must still load to the identical objects.
+\* (The implementation re-keys and resizes every Dimension in place.)  At most one per history; the event is part of
+\* the observable history through `pickled`.
+DefineDim ==
+  /\ "defdim" \in Ops /\ <<One, "defdim", 100>> \notin pickled
+  /\ pickled' = pickled \cup {<<One, "defdim", 100>>}
+  /\ ev' = Ev("defdim", One, One, 0, "", "ok", <<>>, <<>>, <<>>, {})
+  /\ UNCHANGED tab
 
 Codecs == {"pickle", "copy", "deepcopy", "json"}
 Kinds  == {"str", "ratio", "pretty", "mathml"}
@@ -180,6 +193,7 @@ Next == \/ \E u, v \in known : Mul(u, v) \/ Div(u, v) \/ (\E k \in {"convert", "
         \/ \E u \in known, k \in Kinds : Render(u, k)
         \/ \E u \in known, c \in Codecs, q \in QKinds : Dump(u, c, q) \/ Load(u, c, q)
         \/ \E u \in Foreign, c \in {"pickle", "json"}, q \in QKinds : LoadForeign(u, c, q)
+        \/ DefineDim
 Spec == Init /\ [][Next]_vars
 
 (* ---------------- properties ---------------- *)
